@@ -11,12 +11,12 @@ EXTENDS Bytes, IdnaFragment
 
 TA(ok, unspec, s) == [ok |-> ok, unspec |-> unspec, s |-> s]
 
-DomainToAsciiX(decoded, strict) ==
+DomainToAsciiX(decoded, strict, loosej) ==
   IF AllAscii(decoded) THEN TA(TRUE, FALSE, LowerStr(decoded))
   ELSE IF ~ValidUtf8(decoded) THEN TA(FALSE, FALSE, <<>>)   \* U+FFFD is disallowed
   ELSE LET cps == Utf8Decode(decoded) IN
        IF ~InFragment(cps) THEN TA(FALSE, TRUE, <<>>)
-       ELSE LET r == FragToAsciiX(cps, strict) IN TA(r.ok, r.unspec, r.s)
+       ELSE LET r == FragToAsciiX(cps, strict, loosej) IN TA(r.ok, r.unspec, r.s)
 
-DomainToAscii(decoded) == DomainToAsciiX(decoded, TRUE)
+DomainToAscii(decoded) == DomainToAsciiX(decoded, TRUE, FALSE)
 =============================================================================
